@@ -9,7 +9,10 @@ LEAN = ["PV.pairing", "PV.unit_left", "PV.X_comm", "PV.main_similarity", "PV.C01
 
 def check(tier, seed):
     d = Decision("C01", tier, seed)
-    d.add_units(fold_canaries(run_units(specs_hermitian(tier))))
+    t = 60000 if tier == "thorough" else 20000
+    norm = [("contracts.bd_guards", "unit_fully_diagonalize_normalisation", {"nb": nb, "given": g, "timeout_ms": t}) for nb in (1, 2) for g in ("empty", "list", "ndarray", "dict")]
+    guards = [("contracts.bd_guards", "unit_h0_guards", {"nb": 2, "hermitian": True, "timeout_ms": t})]
+    d.add_units(fold_canaries(run_units(specs_hermitian(tier) + norm + guards)))
     d.add_lean(LEAN + LEAN_VACUITY)
     d.assumptions += [LEAN_SETTING_NOTE,
                       "input precondition: H is Hermitian (H[i,j,n]^dagger = H[j,i,n]) and masks are symmetric",
